@@ -13,6 +13,7 @@ What is proved instead (`_partial`) is the full claim for every history without 
 entries (books: also without `clear`); provenance of `get` answers holds for every history.
 -/
 import Cascette.Proofs.MemConc
+import Cascette.Proofs.DiskConc
 namespace Cascette.Props.C11
 open Cascette.Spec.CacheMap (Key Val Ref)
 open Cascette.Spec.Interleave
@@ -174,3 +175,225 @@ example : ∃ progs : List (List Op), progs.length = 3 ∧ (∀ p ∈ progs, ∀
 example : ∀ p ∈ [[Op.put 0 [1] false, .clear], [.get 0, .remove 0]], ∀ op ∈ p, OpOk true op := by decide
 
 end Cascette.Props.C11
+
+/-! # DiskCache under concurrency (Model/DiskConc)
+
+Every DiskCache operation cut at the `disk.*` schedule points (temp-file open, write, rename,
+index update under the RwLock), over a directory with inodes.  Theorems for ANY number of
+threads and ANY schedule; the races the pinned tree has are kernel-checked witness schedules,
+each replayed on the real DiskCache (corpus/C11/disk-*.case) and recorded as a finding. -/
+
+namespace Cascette.Props.C11.Disk
+open Cascette.Spec.CacheMap (Key Val)
+open Cascette.Spec.Interleave
+open Cascette.Model.CacheAssoc Cascette.Proofs.CacheAssoc
+open Cascette.Model.DiskConc
+open Cascette.Proofs.DiskConc
+open Cascette.Proofs.MemConc (runSched_inv)
+open Cascette.Spec.Interleave (quiescent)
+open Cascette.Model.MemConc (wrap)
+
+/-- **books of the disk cache, at every moment** (partial: programs without `get`).  Any number
+of threads, any lists of put / put_with_ttl (expiring or not) / contains / remove on the same
+or different keys, ANY file-name layout (shared temporary names included: a put whose rename
+fails changes nothing), ANY schedule, stopped anywhere: `entry_count` is the number of index
+entries and `disk_usage` the sum of their sizes — the index and both counters change in one
+step under the index write lock. -/
+theorem disk_books_always_partial (L : Layout) (s0 : State) (progs : List (List Op)) (sched : List Nat)
+    (hb : DBooks s0) (hp : ∀ p ∈ progs, ∀ op ∈ p, OpNG op) :
+    DBooks (runSched (machine L) (sys s0 progs) sched).shared :=
+  (runSched_inv (machine L) BInv (fun y i => binv_stepAt L y i) sched _ (binv_sys hb hp)).books
+
+/-- the hypotheses are satisfiable by a non-trivial instance: same-key puts racing a remove -/
+example : DBooks init ∧ ∀ p ∈ [[Op.put 0 [1] false, .contains 0], [.put 0 [2, 2] true], [.remove 0]],
+    ∀ op ∈ p, OpNG op := ⟨⟨trivial, rfl, rfl⟩, by decide⟩
+
+/-! ## witness schedules: where the pinned tree violates the full statement -/
+
+/-- file names of the run: key `k` is stored in file `k`; keys 0, 1 have their own temporary
+file, keys 2 and 3 ("ribbit:us:e.a" / "ribbit:us:e.b") share one -/
+def layW : Layout := { fin := fun k => k, tmp := fun k => if k = 3 then 6 else k + 4 }
+
+abbrev run (s : State) (progs : List (List Op)) (sched : List Nat) := runSched (machine layW) (sys s progs) sched
+
+/-- **(a) puts of threads that use different file names: nothing fails, every value is
+retrievable, the books are exact** — for ANY number of threads, ANY lists of puts (expiring or
+not, the same key any number of times within a thread), ANY schedule, stopped anywhere.
+`own k` names the thread that puts key `k`; the layout must give different entry files to
+different keys, never use an entry file as a temporary file, and give keys of different threads
+different temporary files (`Sep`; keys of ONE thread may share theirs, as "x.a" / "x.b" do).
+Then no put answers `Err`, and for every thread that is between operations the last value it put
+under each key is what the index records (size, TTL class) and what the entry file holds —
+whatever the other threads are in the middle of; the books are right at every moment. -/
+theorem disk_puts_distinct_names (L : Layout) (own : Key → Nat) (hS : Sep L own) (s0 : State)
+    (progs : List (List Op)) (sched : List Nat) (hf : FsOk s0.fs) (hb : DBooks s0)
+    (hp : ∀ i p, progs[i]? = some p → ∀ op ∈ p, PutOwn own i op) :
+    let y := runSched (machine L) (sys s0 progs) sched
+    DBooks y.shared ∧
+    ∀ (i : Nat) (t : Thread), y.threads[i]? = some t →
+      (∀ r ∈ t.results, r.2 = Out.unit) ∧
+      (t.pc = Pc.idle → ∀ k v sh, lastPut t.results k = some (v, sh) →
+        lookup k y.shared.index = some { size := v.length, short := sh } ∧
+        y.shared.fs.read (L.fin k) = some v) := by
+  intro y
+  have hng : ∀ p ∈ progs, ∀ op ∈ p, OpNG op := by
+    intro p hp' op hop
+    obtain ⟨i, hi⟩ := List.getElem?_of_mem hp'
+    exact putOwn_opNG (hp i p hi op hop)
+  refine ⟨disk_books_always_partial L s0 progs sched hb hng, ?_⟩
+  have h := runSched_inv (machine L) (AInv L own) (fun y i => ainv_stepAt hS y i) sched _ (ainv_sys hf hp)
+  intro i t ht
+  have hti := h.threads i t ht
+  refine ⟨fun r hr => (hti.res r hr).1, ?_⟩
+  intro hidle k v sh hl
+  have hown : own k = i := hti.lp k (by rw [hl]; exact fun e => by cases e)
+  have := hti.retr k hown (by rw [hidle]; exact fun e => by cases e)
+  rw [hl] at this
+  exact this
+
+/-- … in particular at quiescence: both (all) values are there -/
+theorem disk_puts_distinct_names_quiescent (L : Layout) (own : Key → Nat) (hS : Sep L own) (s0 : State)
+    (progs : List (List Op)) (sched : List Nat) (hf : FsOk s0.fs) (hb : DBooks s0)
+    (hp : ∀ i p, progs[i]? = some p → ∀ op ∈ p, PutOwn own i op)
+    (hq : quiescent (machine L) (runSched (machine L) (sys s0 progs) sched) = true) :
+    let y := runSched (machine L) (sys s0 progs) sched
+    DBooks y.shared ∧ ∀ t : Thread, t ∈ y.threads → (∀ r ∈ t.results, r.2 = Out.unit) ∧
+      ∀ k v sh, lastPut t.results k = some (v, sh) →
+        lookup k y.shared.index = some { size := v.length, short := sh } ∧
+        y.shared.fs.read (L.fin k) = some v := by
+  intro y
+  have h := disk_puts_distinct_names L own hS s0 progs sched hf hb hp
+  refine ⟨h.1, ?_⟩
+  intro t ht
+  obtain ⟨i, hi⟩ := List.getElem?_of_mem ht
+  have hd : t.done = true := List.all_eq_true.mp hq t ht
+  have hidle : t.pc = Pc.idle := by
+    unfold Thread.done at hd
+    simp only [Bool.and_eq_true, decide_eq_true_eq] at hd
+    exact hd.1
+  exact ⟨(h.2 i t hi).1, (h.2 i t hi).2 hidle⟩
+
+/-- a stored value is what a `get` run alone returns (three steps: look, read, touch) -/
+theorem disk_get_of_stored (L : Layout) (s : State) (k : Key) (v : Val)
+    (h1 : lookup k s.index = some { size := v.length, short := false }) (h2 : s.fs.read (L.fin k) = some v) :
+    (runSched (machine L) (sys s [[.get k]]) [0, 0, 0]).threads.map (·.results) = [[(.get k, .val (some v))]] := by
+  simp [runSched, stepAt, sys, machine, Thread.new, Thread.done, step, startOp, contOp, pcOp, h1, h2]
+
+/-- a layout over all keys: entry file 2k, temporary file 2k+1, except that key 3 uses key 2's
+temporary file (as "ribbit:us:e.a" / "ribbit:us:e.b" do) -/
+def layS : Layout := { fin := fun k => 2 * k, tmp := fun k => if k = 3 then 5 else 2 * k + 1 }
+
+/-- the hypotheses are satisfiable by a non-trivial instance: keys 2 and 3 share their temporary
+file and belong to one thread; three threads, a repeated key -/
+example : Sep layS (fun k => if k = 3 then 2 else k) ∧ FsOk init.fs ∧ DBooks init ∧
+    ∀ i p, [[Op.put 0 [1] false, .put 0 [2, 2] true], [.put 1 [3] false], [.put 2 [4] false, .put 3 [5] false]][i]? = some p →
+      ∀ op ∈ p, PutOwn (fun k => if k = 3 then 2 else k) i op := by
+  refine ⟨⟨?_, ?_, ?_⟩, fsOk_empty, ⟨trivial, rfl, rfl⟩, ?_⟩
+  · intro (k : Nat) (k' : Nat) (h : 2 * k = 2 * k'); exact Nat.eq_of_mul_eq_mul_left (by decide) h
+  · intro (k : Nat) (k' : Nat); show (if k = 3 then 5 else 2 * k + 1) ≠ 2 * k'; split <;> omega
+  · intro (k : Nat) (k' : Nat) (h : (if k = 3 then 5 else 2 * k + 1) = (if k' = 3 then 5 else 2 * k' + 1))
+    show (if k = 3 then 2 else k) = (if k' = 3 then 2 else k')
+    by_cases e1 : k = 3 <;> by_cases e2 : k' = 3 <;> simp only [e1, e2, if_true, if_false] at h ⊢ <;> omega
+  · intro i p hi op hop
+    match i, hi with
+    | 0, hi => cases hi; simp at hop; rcases hop with rfl | rfl <;> rfl
+    | 1, hi => cases hi; simp at hop; subst hop; rfl
+    | 2, hi => cases hi; simp at hop; rcases hop with rfl | rfl <;> rfl
+    | n + 3, hi => simp at hi
+
+/-- **⟂ a put that loses no race for the index fails** (`disk-shared-tmp-rename-fails`).  Two
+threads put the same value under the same key; both open `<key>.tmp`, thread 1 writes and
+renames it away, thread 0's rename finds no such file: `Err(Io)`. -/
+theorem disk_shared_tmp_rename_fails_witness :
+    let y := run init [[.put 0 [0xa1] false], [.put 0 [0xa1] false]] [0, 0, 0, 1, 1, 1, 1, 0, 1]
+    quiescent (machine layW) y = true ∧
+    y.threads.map (·.results) = [[(.put 0 [0xa1] false, .err)], [(.put 0 [0xa1] false, .unit)]] := by
+  decide
+
+/-- **⟂ a torn value is published** (`disk-shared-tmp-foreign-bytes`).  Thread 0 puts 1 byte,
+thread 1 puts 3 bytes under the same key.  Both open the shared temporary file (one inode),
+thread 1 writes `b2 b2 b2`, thread 0 writes `a1` over its beginning and renames: the entry file
+holds `a1 b2 b2`, a value nobody wrote; the index says 1 byte; thread 1's rename fails. -/
+theorem disk_shared_tmp_torn_value_witness :
+    let y := run init [[.put 0 [0xa1] false], [.put 0 [0xb2, 0xb2, 0xb2] false]] [0, 0, 1, 1, 1, 0, 0, 0, 1]
+    quiescent (machine layW) y = true ∧
+    y.shared.fs.read (layW.fin 0) = some [0xa1, 0xb2, 0xb2] ∧
+    lookup 0 y.shared.index = some { size := 1, short := false } ∧ y.shared.bytes = 1 ∧
+    y.threads.map (·.results) =
+      [[(.put 0 [0xa1] false, .unit)], [(.put 0 [0xb2, 0xb2, 0xb2] false, .err)]] := by
+  decide
+
+/-- **⟂ another key's bytes are published** (same sig).  Keys 2 and 3 share their temporary
+name.  Thread 1 (key 3) writes into the inode thread 0 (key 2) has already renamed to key 2's
+file: key 2 serves key 3's value, key 3's put fails. -/
+theorem disk_shared_tmp_foreign_bytes_witness :
+    let y := run init [[.put 2 [0x2a, 0x2a] false], [.put 3 [0x3b, 0x3b, 0x3b] false]] [0, 0, 0, 1, 1, 0, 0, 1, 1]
+    quiescent (machine layW) y = true ∧
+    y.shared.fs.read (layW.fin 2) = some [0x3b, 0x3b, 0x3b] ∧
+    lookup 2 y.shared.index = some { size := 2, short := false } ∧ lookup 3 y.shared.index = none ∧
+    y.threads.map (·.results) =
+      [[(.put 2 [0x2a, 0x2a] false, .unit)], [(.put 3 [0x3b, 0x3b, 0x3b] false, .err)]] := by
+  decide
+
+/-- **⟂ put racing remove leaves an index entry without a file**
+(`disk-put-remove-index-without-file`).  The put has renamed its file into place, the remove
+(not indexed yet: it deletes the file it finds) runs, the put then indexes the key: both
+answered successfully, the books count an entry, and a `get` run alone afterwards fails. -/
+theorem disk_put_remove_index_without_file_witness :
+    let y := run init [[.put 0 [0xa1] false], [.remove 0]] [0, 0, 0, 0, 1, 0]
+    quiescent (machine layW) y = true ∧
+    y.threads.map (·.results) = [[(.put 0 [0xa1] false, .unit)], [(.remove 0, .bool true)]] ∧
+    lookup 0 y.shared.index = some { size := 1, short := false } ∧ y.shared.fs.read (layW.fin 0) = none ∧
+    (run y.shared [[.get 0]] [0, 0]).threads.map (·.results) = [[(.get 0, .err)]] := by
+  decide
+
+/-- key 0 stored (2 bytes), books right -/
+def live0 : State :=
+  { index := [(0, { size := 2, short := false })], fs := { dir := [(0, 0)], inodes := [[0x1e, 0x1e]] },
+    count := 1, bytes := 2 }
+
+/-- key 0 stored with a TTL that has ended (6 bytes), books right -/
+def expired0 : State :=
+  { index := [(0, { size := 6, short := true })], fs := { dir := [(0, 0)], inodes := [[0xf6, 0xf6, 0xf6, 0xf6, 0xf6, 0xf6]] },
+    count := 1, bytes := 6 }
+
+/-- (test) these start states are what a put leaves behind -/
+example : (run init [[.put 0 [0x1e, 0x1e] false]] [0, 0, 0, 0, 0]).shared = live0 := by decide
+example : (run init [[.put 0 [0xf6, 0xf6, 0xf6, 0xf6, 0xf6, 0xf6] true]] [0, 0, 0, 0, 0]).shared = expired0 := by decide
+
+/-- **⟂ get racing remove fails and corrupts the books** (`disk-get-fails-racing-remove`,
+`disk-counter-drift-stale-get`).  The get looks the entry up, the remove deletes entry and file,
+the get's read fails: it answers `Err`, removes the key from the index again (nothing there)
+and decrements both counters regardless — `entry_count` = −1 (2^64 − 1 in the Rust) over an
+empty cache, for good. -/
+theorem disk_get_fails_racing_remove_witness :
+    let y := run live0 [[.remove 0], [.get 0]] [1, 0, 1]
+    quiescent (machine layW) y = true ∧ DBooks live0 ∧
+    y.threads.map (·.results) = [[(.remove 0, .bool true)], [(.get 0, .err)]] ∧
+    y.shared.index = [] ∧ y.shared.count = -1 ∧ y.shared.bytes = -2 ∧ ¬ DBooks y.shared ∧
+    wrap y.shared.count = 18446744073709551615 := by
+  refine ⟨by decide, ⟨⟨rfl, trivial⟩, rfl, rfl⟩, by decide, by decide, by decide, by decide, ?_, by decide⟩
+  intro h; exact absurd h.count (by decide)
+
+/-- **⟂ a value written after an entry expired is deleted by a reader that had seen the old
+entry** (`disk-expired-get-deletes-fresh-put`, `disk-counter-drift-stale-get`).  The get sees
+the ended TTL, the put runs to completion (file renamed, entry replaced: 1 byte), the get then
+removes the key from the index, deletes the file and subtracts the 6 bytes it saw: put answered
+`Ok`, nobody removed anything, the cache is empty and `disk_usage` = −5. -/
+theorem disk_expired_get_deletes_fresh_put_witness :
+    let y := run expired0 [[.get 0], [.put 0 [0xa1] false]] [0, 1, 1, 1, 1, 1, 0]
+    quiescent (machine layW) y = true ∧ DBooks expired0 ∧
+    y.threads.map (·.results) = [[(.get 0, .val none)], [(.put 0 [0xa1] false, .unit)]] ∧
+    y.shared.index = [] ∧ y.shared.fs.read (layW.fin 0) = none ∧
+    y.shared.count = 0 ∧ y.shared.bytes = -5 ∧ wrap y.shared.bytes = 18446744073709551611 := by
+  refine ⟨by decide, ⟨⟨rfl, trivial⟩, rfl, rfl⟩, by decide, by decide, by decide, by decide, by decide, by decide⟩
+
+/-- **⟂ two readers of one expired entry**: both see the ended TTL, both decrement —
+`entry_count` = −1 over an empty cache without any writer at all (same sig
+`disk-counter-drift-stale-get`). -/
+theorem disk_expired_two_readers_witness :
+    let y := run expired0 [[.get 0], [.get 0]] [0, 1, 0, 1]
+    quiescent (machine layW) y = true ∧ y.shared.index = [] ∧ y.shared.count = -1 ∧ y.shared.bytes = -6 := by
+  decide
+
+end Cascette.Props.C11.Disk
